@@ -335,7 +335,7 @@ func genC32(seed uint64, tier string) any {
 				sc.Skip = r.Bool()
 			}
 			for k := r.Pick([]int{0, 5, 2}); k > 0; k-- {
-				e := hsEdit{Dir: r.Intn(2), Msg: r.Pick([]int{5, 4, 3, 2, 1}), Op: []string{"empty", "empty", "shrink", "set", "set", "dropext", "dupext", "setvec", "echo_sid"}[r.Intn(9)], Ext: -1, Sel: r.Intn(1 << 10)}
+				e := hsEdit{Dir: r.Intn(2), Msg: r.Pick([]int{5, 4, 3, 2, 1}), Op: []string{"empty", "empty", "shrink", "set", "set", "dropext", "dupext", "setvec", "echo_sid", "sigalg"}[r.Intn(10)], Ext: -1, Sel: r.Intn(1 << 10)}
 				if e.Op == "setvec" {
 					e.Data = r.Bytes([]int{1, 2, 3, 4, 7, 8, 16, 31, 32, 33, 64, 65, 255, 256}[r.Intn(14)])
 					if r.Chance(1, 4) {
@@ -344,6 +344,11 @@ func genC32(seed uint64, tier string) any {
 				}
 				if e.Op == "echo_sid" {
 					e.Dir, e.Msg = 1, 0
+				} else if e.Op == "sigalg" {
+					e.Dir, e.Type = 1, 12
+					if r.Chance(1, 4) {
+						e.Dir, e.Type = 0, 15
+					}
 				} else if r.Chance(1, 2) {
 					// aim at a message type rather than a position in the flight
 					if e.Dir == 0 {
@@ -1057,7 +1062,7 @@ func init() {
 		Stub:   []string{"transport", "clock", "entropy", "stub peer in stub mode"},
 		Assume: []string{"a call that returns because its deadline expired has returned"},
 		FaultKinds: []string{"fault.byte_flip", "fault.byte_trunc", "fault.byte_insert", "fault.byte_dup", "fault.stub_kind_0", "fault.stub_kind_1", "fault.stub_kind_2", "fault.stub_kind_3", "fault.stub_stall", "fault.transport_killed", "fault.handshake_message_reframed", "fault.key_update_then_transport_closed",
-			"fault.handshake_field_empty", "fault.handshake_field_shrink", "fault.two_psk_identities_binder_mode_0", "fault.two_psk_identities_binder_mode_1", "fault.two_psk_identities_binder_mode_2", "fault.two_psk_identities_binder_mode_3", "fault.handshake_field_set", "fault.handshake_field_setvec", "fault.handshake_field_echo_sid", "fault.handshake_field_dropext", "fault.handshake_field_dupext", "fault.record_injected",
+			"fault.handshake_field_empty", "fault.handshake_field_shrink", "fault.two_psk_identities_binder_mode_0", "fault.two_psk_identities_binder_mode_1", "fault.two_psk_identities_binder_mode_2", "fault.two_psk_identities_binder_mode_3", "fault.handshake_field_set", "fault.handshake_field_setvec", "fault.handshake_field_echo_sid", "fault.handshake_field_sigalg", "fault.handshake_field_dropext", "fault.handshake_field_dupext", "fault.record_injected",
 			"net.read_deadline_expired", "probe.partial_log_marshalled", "probe.sweep_runs", "probe.sweep_runs_fault_inside_transcript", "probe.handshakes_ok_0", "probe.handshakes_ok_1", "probe.handshakes_ok_2"},
 		NotInjected: "no storage or crash-restart; allocation failure has no seam in Go",
 		GenAt:       genC32At,
